@@ -158,11 +158,7 @@ pub fn iim<Int: Clone + Integer + NumAssign>(
     // Step 7: Check rest of matrix
     for k in n..m {
         for i in 0..r {
-            let mut xmsum = Ratio::<Int>::zero();
-            for j in 0..n {
-                xmsum += &xmat[i][j] * &mmat[j][k]
-            }
-            if xmsum != bmat[i][k] {
+            if !bmat[i][k].is_zero() {
                 return Err(IIMError::NotInImage);
             }
         }
